@@ -396,3 +396,297 @@ Proof.
   destruct (sd_fit eps1 (spd1 / sdf1)) as [k|f]; reflexivity.
 Qed.
 
+(* ------------------------------------------------------------------ *)
+(* the guarded normal form                                             *)
+
+Definition sd_eps1 (w : N) (d : sigdef) : N :=
+  (sd_eps0 w d + sd_sumdf1 w d - 1) / sd_sumdf1 w d * sd_sumdf1 w d.
+Definition sd_spd1 (w : N) (d : sigdef) : N :=
+  (sd_spd0 w d + sd_sdf1 w d - 1) / sd_sdf1 w d * sd_sdf1 w d.
+
+Lemma mins : forall w d,
+  10 <= sd_sdf0 w d /\ 10 <= sd_spd0 w d /\ 10 <= sd_eps0 w d /\ 10 <= sd_sumdf1 w d.
+Proof. intros. unfold sd_sdf0, sd_spd0, sd_eps0, sd_sumdf1. unfold_consts. lia. Qed.
+
+Lemma align_guarded_form : forall w d, In w sd_widths ->
+  guard_sdf w d -> guard_spd w d -> guard_eps w d ->
+  exists k, LargestDiv (sd_eps1 w d) (sd_spd1 w d / sd_sdf1 w d) k /\
+    sd_spd1 w d mod sd_sdf1 w d = 0 /\ sd_sdf1 w d * k <= sd_spd1 w d /\ sd_spd1 w d < U32 /\
+    sd_align w d = SdOk (mkSigDef (sd_sdf1 w d * k) (sd_sdf1 w d) (sd_eps1 w d) (sd_sumdf1 w d)
+                                   (anno (sd_defaults w d)) (utc (sd_defaults w d))).
+Proof.
+  intros w d Hw G1 G2 G3.
+  destruct (width_facts w Hw) as (Hw0 & Hm0 & Hm256 & _ & _).
+  destruct (mins w d) as (M1 & M2 & M3 & M4).
+  unfold guard_sdf, guard_spd, guard_eps in *.
+  pose proof (round_spec (sd_sdf0 w d) (sd_multiple w) Hm0) as (R1 & R2 & R3).
+  fold (sd_sdf1 w d) in R1, R2, R3.
+  assert (Hs0 : sd_sdf1 w d <> 0) by lia.
+  assert (Hu0 : sd_sumdf1 w d <> 0) by lia.
+  pose proof (round_spec (sd_spd0 w d) (sd_sdf1 w d) Hs0) as (S1 & S2 & S3).
+  fold (sd_spd1 w d) in S1, S2, S3.
+  pose proof (round_spec (sd_eps0 w d) (sd_sumdf1 w d) Hu0) as (E1 & E2 & E3).
+  fold (sd_eps1 w d) in E1, E2, E3.
+  assert (Hdiv : sd_spd1 w d = sd_sdf1 w d * (sd_spd1 w d / sd_sdf1 w d)) by (apply N.div_exact; assumption).
+  assert (Hepd : 1 <= sd_spd1 w d / sd_sdf1 w d).
+  { destruct (N.eq_dec (sd_spd1 w d / sd_sdf1 w d) 0) as [Z|Z]; [rewrite Z in Hdiv; lia|lia]. }
+  destruct (fit_loop_total (sd_eps1 w d) (sd_spd1 w d / sd_sdf1 w d) Hepd) as (k & Hk & HL).
+  exists k. split; [exact HL|]. split; [exact S1|].
+  assert (Hle : sd_sdf1 w d * k <= sd_spd1 w d).
+  { eapply N.le_trans; [|apply N.eq_le_incl; symmetry; exact Hdiv].
+    apply N.mul_le_mono_l. destruct HL as (_ & B & _). exact B. }
+  split; [exact Hle|]. split; [lia|].
+  unfold sd_align.
+  destruct (w =? 0) eqn:Ew; [apply N.eqb_eq in Ew; contradiction|].
+  fold (sd_sdf0 w d) (sd_spd0 w d) (sd_eps0 w d) (sd_sumdf1 w d).
+  rewrite (round_up_exact (sd_sdf0 w d) (sd_multiple w)) by (try assumption; lia).
+  fold (sd_sdf1 w d). cbn [sd_bind].
+  rewrite (round_up_exact (sd_eps0 w d) (sd_sumdf1 w d)) by (try assumption; lia).
+  fold (sd_eps1 w d). cbn [sd_bind].
+  rewrite (round_up_exact (sd_spd0 w d) (sd_sdf1 w d)) by (try assumption; lia).
+  fold (sd_spd1 w d). cbn [sd_bind].
+  destruct (sd_sdf1 w d =? 0) eqn:Es; [apply N.eqb_eq in Es; contradiction|].
+  rewrite Hk. cbn [sd_bind].
+  rewrite u32_small by lia. reflexivity.
+Qed.
+
+(* ------------------------------------------------------------------ *)
+(* align_ok_partial                                                    *)
+
+Lemma align_ok_partial : forall w d, In w sd_widths -> sd_guard w d ->
+  exists d', sd_align w d = SdOk d' /\ Consistent w d' /\
+             (w <> 24 -> Entry256 w d') /\
+             sdf d' mod sd_multiple w = 0 /\ spd d' < U32 /\ sdf d' < U32 /\ eps d' < U32.
+Proof.
+  intros w d Hw (G1 & G2 & G3 & G4a & G4b).
+  destruct (align_guarded_form w d Hw G1 G2 G3) as (k & (K1 & K2 & K3 & K4) & S1 & Hle & Hlt & Hal).
+  destruct (width_facts w Hw) as (Hw0 & Hm0 & Hm256 & WF & _).
+  destruct (mins w d) as (M1 & M2 & M3 & M4).
+  unfold guard_sdf, guard_spd, guard_eps in *.
+  pose proof (round_spec (sd_sdf0 w d) (sd_multiple w) Hm0) as (R1 & R2 & R3).
+  fold (sd_sdf1 w d) in R1, R2, R3.
+  assert (Hs0 : sd_sdf1 w d <> 0) by lia.
+  assert (Hu0 : sd_sumdf1 w d <> 0) by lia.
+  pose proof (round_spec (sd_eps0 w d) (sd_sumdf1 w d) Hu0) as (E1 & E2 & E3).
+  fold (sd_eps1 w d) in E1, E2, E3.
+  destruct (WF (sd_sdf1 w d) R1) as (W1 & W2 & W3).
+  assert (Hk0 : k <> 0) by lia.
+  assert (Hq : sd_sdf1 w d * k / sd_sdf1 w d = k) by (rewrite N.mul_comm; apply N.div_mul; exact Hs0).
+  assert (Hr : (sd_sdf1 w d * k) mod sd_sdf1 w d = 0) by (rewrite N.mul_comm; apply N.mod_mul; exact Hs0).
+  assert (Hge : sd_sdf1 w d * 1 <= sd_sdf1 w d * k) by (apply N.mul_le_mono_l; exact K1).
+  eexists. split; [exact Hal|].
+  cbn [spd sdf eps sumdf anno utc].
+  split.
+  { unfold Consistent. cbn [spd sdf eps sumdf anno utc]. rewrite Hq. unfold_consts.
+    split; [exact W1|]. split; [exact W2|].
+    split; [split; [exact Hs0|exact Hr]|].
+    split; [split; [exact Hk0|exact K3]|].
+    split; [split; [exact Hu0|exact E1]|].
+    split; [clear - Hge R2 M1; lia|]. split; [clear - R2 M1; lia|].
+    split; [clear - E2 M3; lia|]. split; [clear - M4; lia|].
+    split; [clear - G4a; lia|clear - G4b; lia]. }
+  split; [exact W3|].
+  split; [exact R1|].
+  split; [clear - Hle Hlt; lia|]. split; [clear - R3 G1; lia|clear - E3 G3; lia].
+Qed.
+
+(* ------------------------------------------------------------------ *)
+(* tightness: outside the guard the C faults or stores inconsistent    *)
+(* parameters                                                          *)
+
+Lemma align_guard_necessary : forall w d d', In w sd_widths -> in_range d ->
+  sd_align w d = SdOk d' -> Consistent w d' -> sd_guard w d.
+Proof.
+  intros w d d' Hw Hr Hal Hc.
+  destruct (width_facts w Hw) as (Hw0 & Hm0 & Hm256 & _ & _).
+  destruct (mins w d) as (M1 & M2 & M3 & M4).
+  pose proof (defaults_in_range w d Hw Hr) as (D1 & D2 & D3 & D4 & D5 & D6).
+  assert (B1 : sd_sdf0 w d < U32) by (unfold sd_sdf0, U32 in *; unfold_consts; lia).
+  assert (B2 : sd_spd0 w d < U32) by (unfold sd_spd0, U32 in *; unfold_consts; lia).
+  assert (B3 : sd_eps0 w d < U32) by (unfold sd_eps0, U32 in *; unfold_consts; lia).
+  assert (B4 : sd_sumdf1 w d < U32) by (unfold sd_sumdf1, U32 in *; unfold_consts; lia).
+  assert (Hu0 : sd_sumdf1 w d <> 0) by lia.
+  assert (Ew : (w =? 0) = false) by (apply N.eqb_neq; exact Hw0).
+  (* 1: the rounding of sample_decimate_factor *)
+  destruct (N.lt_ge_cases (sd_sdf0 w d + sd_multiple w - 1) U32) as [G1|G1].
+  2:{ exfalso. unfold sd_align in Hal. rewrite Ew in Hal.
+      fold (sd_sdf0 w d) (sd_spd0 w d) (sd_eps0 w d) (sd_sumdf1 w d) in Hal.
+      rewrite (round_up_wraps (sd_sdf0 w d) (sd_multiple w)) in Hal by (unfold U32 in *; try assumption; lia).
+      cbn [sd_bind] in Hal.
+      destruct (sd_round_up (sd_eps0 w d) (sd_sumdf1 w d)); cbn in Hal; discriminate. }
+  pose proof (round_spec (sd_sdf0 w d) (sd_multiple w) Hm0) as (R1 & R2 & R3).
+  fold (sd_sdf1 w d) in R1, R2, R3.
+  assert (Hs0 : sd_sdf1 w d <> 0) by lia.
+  assert (Es : (sd_sdf1 w d =? 0) = false) by (apply N.eqb_neq; exact Hs0).
+  (* 2: the rounding of samples_per_data *)
+  destruct (N.lt_ge_cases (sd_spd0 w d + sd_sdf1 w d - 1) U32) as [G2|G2].
+  2:{ exfalso. unfold sd_align in Hal. rewrite Ew in Hal.
+      fold (sd_sdf0 w d) (sd_spd0 w d) (sd_eps0 w d) (sd_sumdf1 w d) in Hal.
+      rewrite (round_up_exact (sd_sdf0 w d) (sd_multiple w)) in Hal by (try assumption; lia).
+      fold (sd_sdf1 w d) in Hal. cbn [sd_bind] in Hal.
+      destruct (sd_round_up (sd_eps0 w d) (sd_sumdf1 w d)); [|cbn in Hal; discriminate].
+      cbn [sd_bind] in Hal.
+      rewrite (round_up_wraps (sd_spd0 w d) (sd_sdf1 w d)) in Hal by (try assumption; lia).
+      cbn [sd_bind] in Hal. rewrite Es in Hal.
+      rewrite N.div_0_l in Hal by exact Hs0. cbn in Hal. discriminate. }
+  (* 3: the rounding of entries_per_summary *)
+  destruct (N.lt_ge_cases (sd_eps0 w d + sd_sumdf1 w d - 1) U32) as [G3|G3].
+  2:{ exfalso. unfold sd_align in Hal. rewrite Ew in Hal.
+      fold (sd_sdf0 w d) (sd_spd0 w d) (sd_eps0 w d) (sd_sumdf1 w d) in Hal.
+      rewrite (round_up_exact (sd_sdf0 w d) (sd_multiple w)) in Hal by (try assumption; lia).
+      fold (sd_sdf1 w d) in Hal. cbn [sd_bind] in Hal.
+      rewrite (round_up_wraps (sd_eps0 w d) (sd_sumdf1 w d)) in Hal by (try assumption; lia).
+      cbn [sd_bind] in Hal.
+      destruct (sd_round_up (sd_spd0 w d) (sd_sdf1 w d)); [|cbn in Hal; discriminate].
+      cbn [sd_bind] in Hal. rewrite Es in Hal.
+      destruct (sd_fit_loop _ 0 _); [|cbn in Hal; discriminate].
+      cbn [sd_bind] in Hal. injection Hal as <-.
+      destruct Hc as (_ & _ & _ & _ & _ & _ & _ & C8 & _). cbn [eps] in C8.
+      unfold_consts. lia. }
+  (* 4: annotation / utc factors *)
+  destruct (align_guarded_form w d Hw G1 G2 G3) as (k & _ & _ & _ & _ & Hal').
+  rewrite Hal' in Hal. injection Hal as <-.
+  destruct Hc as (_ & _ & _ & _ & _ & _ & _ & _ & _ & C10 & C11). cbn [anno utc] in C10, C11.
+  repeat split; try assumption; lia.
+Qed.
+
+Theorem align_ok_iff : forall w d, In w sd_widths -> in_range d ->
+  ((exists d', sd_align w d = SdOk d' /\ Consistent w d') <-> sd_guard w d).
+Proof.
+  intros w d Hw Hr. split.
+  - intros (d' & Hal & Hc). eapply align_guard_necessary; eassumption.
+  - intros G. destruct (align_ok_partial w d Hw G) as (d' & Hal & Hc & _). eauto.
+Qed.
+
+(* ------------------------------------------------------------------ *)
+(* idempotence                                                         *)
+
+Lemma align_idem : forall w d, In w sd_widths -> Consistent w d ->
+  sdf d mod sd_multiple w = 0 ->
+  spd d + sdf d - 1 < U32 -> eps d + sumdf d - 1 < U32 ->
+  sd_align w d = SdOk d.
+Proof.
+  intros w d Hw Hc Hm G2 G3.
+  destruct Hc as (_ & _ & (C3a & C3b) & (C4a & C4b) & (C5a & C5b) & C6 & C7 & C8 & C9 & C10 & C11).
+  destruct (width_facts w Hw) as (Hw0 & Hm0 & Hm256 & _ & _).
+  unfold_consts.
+  assert (N1 : spd d <> 0) by (clear - C6; lia).
+  assert (N3 : eps d <> 0) by (clear - C8; lia).
+  assert (N5 : anno d <> 0) by (clear - C10; lia).
+  assert (N6 : utc d <> 0) by (clear - C11; lia).
+  assert (Hd : sd_defaults w d = d) by (apply defaults_fixed; assumption).
+  assert (E0 : sd_sdf0 w d = sdf d) by (unfold sd_sdf0; rewrite Hd; unfold_consts; clear - C7; lia).
+  assert (E1 : sd_sdf1 w d = sdf d) by (unfold sd_sdf1; rewrite E0; apply round_multiple; assumption).
+  assert (E2 : sd_spd0 w d = spd d) by (unfold sd_spd0; rewrite Hd; unfold_consts; clear - C6; lia).
+  assert (E3 : sd_eps0 w d = eps d) by (unfold sd_eps0; rewrite Hd; unfold_consts; clear - C8; lia).
+  assert (E4 : sd_sumdf1 w d = sumdf d) by (unfold sd_sumdf1; rewrite Hd; unfold_consts; clear - C9; lia).
+  assert (E5 : sd_eps1 w d = eps d) by (unfold sd_eps1; rewrite E3, E4; apply round_multiple; assumption).
+  assert (E6 : sd_spd1 w d = spd d) by (unfold sd_spd1; rewrite E2, E1; apply round_multiple; assumption).
+  assert (L1 : sd_multiple w <= sdf d) by (apply mod0_le; assumption).
+  assert (L2 : sdf d <= spd d) by (apply mod0_le; assumption).
+  assert (G1 : guard_sdf w d) by (unfold guard_sdf; rewrite E0; clear - L1 L2 G2; lia).
+  assert (G2' : guard_spd w d) by (unfold guard_spd; rewrite E2, E1; exact G2).
+  assert (G3' : guard_eps w d) by (unfold guard_eps; rewrite E3, E4; exact G3).
+  destruct (align_guarded_form w d Hw G1 G2' G3') as (k & HL & _ & _ & _ & Hal).
+  rewrite Hal, E1, E4, E5, Hd. rewrite E5, E6, E1 in HL.
+  assert (HL' : LargestDiv (eps d) (spd d / sdf d) (spd d / sdf d)).
+  { generalize dependent (spd d / sdf d). intros q C4a C4b _. repeat split; try assumption; clear - C4a; lia. }
+  rewrite (LargestDiv_unique _ _ _ _ HL HL').
+  assert (Hx : sdf d * (spd d / sdf d) = spd d) by (symmetry; apply N.div_exact; assumption).
+  rewrite Hx. destruct d; reflexivity.
+Qed.
+
+(* normalising twice: the second pass is the identity as soon as its own two roundings
+   do not wrap (they can: see align_twice_refuted) *)
+Lemma align_twice : forall w d d', In w sd_widths -> sd_guard w d -> sd_align w d = SdOk d' ->
+  spd d' + sdf d' - 1 < U32 -> eps d' + sumdf d' - 1 < U32 ->
+  sd_align w d' = SdOk d'.
+Proof.
+  intros w d d' Hw G Hal G2 G3.
+  destruct (align_ok_partial w d Hw G) as (d2 & Hal2 & Hc & _ & Hm & _).
+  rewrite Hal in Hal2. injection Hal2 as <-.
+  apply align_idem; assumption.
+Qed.
+
+(* ------------------------------------------------------------------ *)
+(* defaults                                                            *)
+
+Lemma align_defaults : forall w d, In w sd_widths -> w <> 24 ->
+  exists t, sd_table w = Some t /\
+    (spd t <> 0 /\ sdf t <> 0 /\ eps t <> 0 /\ sumdf t <> 0 /\ anno t <> 0 /\ utc t <> 0) /\
+    let d1 := mkSigDef (if spd d =? 0 then spd t else spd d) (if sdf d =? 0 then sdf t else sdf d)
+                       (if eps d =? 0 then eps t else eps d) (if sumdf d =? 0 then sumdf t else sumdf d)
+                       (if anno d =? 0 then anno t else anno d) (if utc d =? 0 then utc t else utc d) in
+    sd_defaults w d = d1 /\ sd_defaults w d1 = d1 /\ sd_align w d = sd_align w d1.
+Proof.
+  intros w d Hw H24.
+  destruct (table_some_or_24 w Hw) as [->|(t & Ht & N1 & N2 & N3 & N4 & N5 & N6 & _)]; [contradiction|].
+  exists t. split; [exact Ht|]. split; [repeat split; assumption|].
+  assert (E : sd_defaults w d =
+              mkSigDef (if spd d =? 0 then spd t else spd d) (if sdf d =? 0 then sdf t else sdf d)
+                       (if eps d =? 0 then eps t else eps d) (if sumdf d =? 0 then sumdf t else sumdf d)
+                       (if anno d =? 0 then anno t else anno d) (if utc d =? 0 then utc t else utc d)).
+  { unfold sd_defaults. rewrite Ht. reflexivity. }
+  cbv zeta. rewrite <- E.
+  split; [reflexivity|]. split; [apply defaults_idem; exact Hw|].
+  apply align_depends_on_defaults. symmetry. apply defaults_idem. exact Hw.
+Qed.
+
+Lemma defaults_24_nothing : forall d, sd_defaults 24 d = d.
+Proof. reflexivity. Qed.
+
+(* ------------------------------------------------------------------ *)
+(* the executable predicates reflect the propositions                  *)
+
+Lemma consistentb_iff : forall w d, consistentb w d = true <-> Consistent w d.
+Proof.
+  intros w d. unfold consistentb, consistent_clauses, Consistent. cbn [forallb].
+  rewrite !andb_true_iff, !orb_true_iff, !negb_true_iff, !N.eqb_eq, !N.eqb_neq, !N.leb_le.
+  destruct (N.eq_dec ((SAMPLE_SIZE_BYTES_MAX * 8) mod w) 0) as [Z|Z]; tauto.
+Qed.
+
+Lemma entry256b_iff : forall w d, entry256b w d = true <-> Entry256 w d.
+Proof. intros w d. unfold entry256b, Entry256. apply N.eqb_eq. Qed.
+
+Lemma guardb_iff : forall w d, sd_guardb w d = true <-> sd_guard w d.
+Proof.
+  intros w d. unfold sd_guardb, guard_bits, sd_guard, guard_sdf, guard_spd, guard_eps, guard_ts. cbn [forallb].
+  rewrite !andb_true_iff, !negb_true_iff, !N.eqb_neq, !N.ltb_lt. tauto.
+Qed.
+
+(* for 24-bit samples the stored entry is a multiple of 256 bits exactly when the
+   rounded factor happens to be a multiple of 32 *)
+Lemma entry256_24 : forall d, Entry256 24 d <-> sdf d mod 32 = 0.
+Proof.
+  intros d. unfold Entry256. change (SAMPLE_SIZE_BYTES_MAX * 8) with 256.
+  generalize (sdf d). intro s. lia.
+Qed.
+
+(* ------------------------------------------------------------------ *)
+(* validate                                                            *)
+
+Lemma sample_size_arith : forall dt, sample_size dt = (dt / 256) mod 256.
+Proof.
+  intros dt. unfold sample_size. change 255 with (N.ones 8).
+  rewrite N.land_ones, N.shiftr_div_pow2. reflexivity.
+Qed.
+
+Lemma validate_ok_width : forall sid src ty dt,
+  sd_validate sid src ty dt = 0 -> In (sample_size dt) sd_widths.
+Proof.
+  intros sid src ty dt H. unfold sd_validate in H.
+  destruct (JLS_SIGNAL_COUNT <=? sid); [discriminate|].
+  destruct (JLS_SOURCE_COUNT <=? src); [discriminate|].
+  destruct (negb (ty =? JLS_SIGNAL_TYPE_FSR) && negb (ty =? JLS_SIGNAL_TYPE_VSR)); [discriminate|].
+  destruct (existsb (N.eqb (N.land dt 65535)) sd_datatypes) eqn:Ex; [|discriminate].
+  clear H. apply existsb_exists in Ex. destruct Ex as (x & Hin & Hx).
+  apply N.eqb_eq in Hx. change 65535 with (N.ones 16) in Hx. rewrite N.land_ones in Hx.
+  change (2 ^ 16) with 65536 in Hx.
+  rewrite sample_size_arith.
+  cbn [In sd_datatypes] in Hin.
+  repeat (destruct Hin as [Hin|Hin];
+    [rewrite <- Hin in Hx; clear Hin;
+     match type of Hx with _ = ?c => let v := eval vm_compute in c in change c with v in Hx end;
+     cbn [In sd_widths]; clear - Hx; lia|]).
+  contradiction.
+Qed.
